@@ -106,6 +106,7 @@ SIMPLE = [
     S("return-bare", "return"),
     S("return-walrus", "return ({n1} := E({e1}, {p}))"),
     S("raise", "raise ERR(E({e1}, {p}))"),
+    S("raise-base", "raise BERR(E({e1}, {p}))"),
     S("yield", "yield E({e1}, {p})", gen=True),
     S("yield-recv", "{n1} = yield E({e1}, {p})", cur="n1", gen=True),
     S("yield-bare", "yield", gen=True, tier="thorough"),
